@@ -108,6 +108,7 @@ def install():
     def set_static(self, eng, st, ci, name, val):
         if name == "_buffered_collections" and isinstance(val, Z) and val.hint is None and val.meta.get("fresh_container"):
             # cls._buffered_collections = <a dict built in a local>: the dict becomes an object of its own
+            st.ghost["pre_box_state"] = st.copy()
             a = smt.fresh("regaddr'", IntS)
             st.assume(a >= st.g["Alloc"])
             st.g["Alloc"] = a + 1
